@@ -560,3 +560,162 @@ def c05_r3(ctx: Ctx, rule):
         res.fail(rule.id, "none-check-missing", ctx.loc(norm_q, norm_sites[0].node), "a failed coercion (None) can reach the store",
                  "an unparsable time / unresolvable name is stored as None")
     return res
+
+
+# ------------------------------------------------------------------------------------------ lexical pass-through (C05.R10 / C02.R9 / C11.R10)
+LOSSY_STR_METHODS = {"strip", "lstrip", "rstrip", "lower", "upper", "casefold", "title", "capitalize", "swapcase", "replace", "split", "rsplit", "partition",
+                     "rpartition", "splitlines", "expandtabs", "translate", "removeprefix", "removesuffix", "zfill", "center", "ljust", "rjust", "format", "join"}
+
+
+def _is_dateutil_parse(ctx, fi, call):
+    d = dotted(call.func) or ""
+    if d.endswith("parser.parse"):
+        return True
+    r = ctx.p.resolve_dotted(fi.module, call.func)
+    return bool(r and r[0] == "ext" and r[1].endswith("dateutil.parser.parse"))
+
+
+def _unmodified_param(fi, expr):
+    """expr is a bare parameter of fi that is never rebound in fi."""
+    if not (isinstance(expr, ast.Name) and expr.id in fi.params):
+        return False
+    for n in walk_function(fi.node):
+        if isinstance(n, (ast.Assign, ast.AugAssign, ast.AnnAssign, ast.NamedExpr)):
+            tg = n.targets if isinstance(n, ast.Assign) else [n.target]
+            if any(isinstance(x, ast.Name) and x.id == expr.id for t in tg for x in ast.walk(t)):
+                return False
+    return True
+
+
+def lexical_passthrough(ctx: Ctx, rule):
+    """A typed value's lexical form reaches its datatype's parser exactly as it was given: the parser table contains the identity
+    (xsd:string -> str, xsd:anyURI -> Identifier), so any transformation applied before the table dispatch changes strings; and the
+    datetime coercers are siblings that must compute the same function of a string (equal information, one representation)."""
+    res = RuleResult()
+    table = ctx.const(M, "XSD_DATATYPE_PARSERS")
+    ident = sorted(k.local if isinstance(k, QN) else str(k) for k, v in table.items() if isinstance(v, ClassRef) or getattr(v, "name", None) in ("str",) or "str" in repr(v))
+    res.ob("XSD_DATATYPE_PARSERS holds %d parsers; identity-like entries (the value itself must arrive unchanged): %s" % (len(table), ident))
+    # (1) every call through the table
+    sites = 0
+    for q, fi in ctx.p.functions.items():
+        if fi.module != M or isinstance(fi.node, ast.Lambda):
+            continue
+        tnames = {"XSD_DATATYPE_PARSERS"}
+        for a in walk_function(fi.node):
+            if isinstance(a, ast.Assign) and len(a.targets) == 1 and isinstance(a.targets[0], ast.Name) and any(isinstance(x, ast.Name) and x.id == "XSD_DATATYPE_PARSERS" for x in ast.walk(a.value)):
+                tnames.add(a.targets[0].id)
+        for c in calls_in(fi.node):
+            f = c.func
+            through = (isinstance(f, ast.Subscript) and isinstance(f.value, ast.Name) and f.value.id == "XSD_DATATYPE_PARSERS") or \
+                      (isinstance(f, ast.Call) and call_name(f) == "get" and isinstance(f.func, ast.Attribute) and isinstance(f.func.value, ast.Name) and f.func.value.id == "XSD_DATATYPE_PARSERS") or \
+                      (isinstance(f, ast.Name) and f.id in tnames - {"XSD_DATATYPE_PARSERS"})
+            if not through or not c.args:
+                continue
+            sites += 1
+            ok = _unmodified_param(fi, c.args[0])
+            res.ob("%s: %s is applied to the function's own, never rebound, parameter: %s" % (short(q), norm(c)[:60], ok))
+            if not ok:
+                how = [norm(x)[:50] for x in walk_function(fi.node) if isinstance(x, ast.Call) and isinstance(x.func, ast.Attribute) and x.func.attr in LOSSY_STR_METHODS]
+                res.fail(rule.id, "lexical-form-rewritten::%s" % q, ctx.loc(q, c),
+                         "%s hands the datatype's parser something other than the value it was given (%s): xsd:string and xsd:anyURI values are stored changed" % (short(q), "; ".join(how) or norm(c.args[0])),
+                         "PROV-XML/JSON text with <ex:code xsi:type=\"xsd:string\">  indented\\n</ex:code>: the loaded value is 'indented'; writing and loading again cannot give the original text's value")
+    if not sites:
+        raise AnalysisError("no dispatch through XSD_DATATYPE_PARSERS found in prov.model")
+    # (2) datetime coercers are siblings: on a string they return dateutil's parse of the unmodified string, the value itself, or None
+    coercers = sorted(datetime_coercers_loose(ctx))
+    if len(coercers) < 2:
+        raise AnalysisError("datetime coercers not found (%s)" % coercers)
+    for name in coercers:
+        q = M + "." + name
+        fi = ctx.fn(q)
+        for n in walk_function(fi.node):
+            if not isinstance(n, ast.Return) or n.value is None:
+                continue
+            v = resolve_local(fi.node, n.value)
+            kind = None
+            if isinstance(v, ast.Constant) and v.value is None:
+                kind = "None"
+            elif isinstance(v, ast.Name) and v.id in fi.params:
+                kind = "the argument itself"
+            elif isinstance(v, ast.Call) and _is_dateutil_parse(ctx, fi, v) and v.args and _unmodified_param(fi, v.args[0]) and not v.keywords:
+                kind = "dateutil's parse of the unmodified argument"
+            res.ob("%s returns %s: %s" % (name, norm(n.value)[:60], kind or "SOMETHING ELSE"))
+            if kind is None:
+                res.fail(rule.id, "datetime-coercers-disagree::%s::%s" % (name, norm(n.value)[:40]), ctx.loc(q, n),
+                         "%s can return %s, which its sibling coercers (%s) never compute for the same string" % (name, norm(n.value)[:60], ", ".join(c for c in coercers if c != name)),
+                         "the same instant given as '2012-03-02T10:30:00Z' through add_attributes and through a factory is stored as two different datetimes: re-adding it is refused")
+    return res
+
+
+def datetime_coercers_loose(ctx: Ctx):
+    """Module-level functions of prov.model that call dateutil's parser on their first parameter somewhere."""
+    out = set()
+    for q, fi in ctx.p.functions.items():
+        if fi.module != M or fi.cls or fi.parent or isinstance(fi.node, ast.Lambda) or not fi.params:
+            continue
+        for c in calls_in(fi.node):
+            if _is_dateutil_parse(ctx, fi, c) and c.args and any(isinstance(x, ast.Name) and x.id == fi.params[0] for x in ast.walk(c.args[0])):
+                out.add(fi.name)
+    return out
+
+
+for _p, _r, _d in (("C05", "C05.R10", "a typed literal is stored as the value a direct assignment would store; every entry path parses times alike"),
+                   ("C02", "C02.R9", "xsi:type'd strings reload unchanged (leading/trailing white space included)"),
+                   ("C11", "C11.R10", "loading never alters a string value on its way through the datatype table"),
+                   ("C01", "C01.R10", "typed literal objects reload unchanged through the datatype table")):
+    RULES.setdefault(_p, []).append(Rule(_r, "lexical forms reach their datatype's parser unmodified; the datetime coercers compute one function", 4, lexical_passthrough, "F-PATH", _d))
+
+
+# ------------------------------------------------------------------------------------------ formal/extra partition (C04.R9 / C09.R9 / C08.R10)
+def attribute_partition(ctx: Ctx, rule):
+    """add_record() re-creates a record from formal_attributes + extra_attributes.  The two views partition the attributes exactly
+    iff the name set the formal view walks is the name set the extra view filters out - for every record class."""
+    res = RuleResult()
+    RECORD_ = M + ".ProvRecord"
+    fq, eq_ = ctx.p.lookup_method(RECORD_, "formal_attributes"), ctx.p.lookup_method(RECORD_, "extra_attributes")
+    if not fq or not eq_:
+        raise AnalysisError("anchor vanished: ProvRecord.formal_attributes / extra_attributes")
+    ffi, efi = ctx.fn(fq), ctx.fn(eq_)
+    walked = [n.iter for n in walk_function(ffi.node) if isinstance(n, (ast.For, ast.comprehension))]
+    walked = [w for w in walked if not (isinstance(w, ast.Call) and call_name(w) in ("items", "values"))]
+    filt = []
+    for q2 in ctx.helper_closure(eq_, 1):
+        for n in walk_function(ctx.fn(q2).node):
+            if isinstance(n, ast.Compare) and len(n.ops) == 1 and isinstance(n.ops[0], (ast.NotIn, ast.In)):
+                filt.append((n.comparators[0], isinstance(n.ops[0], ast.NotIn)))
+    if len(walked) != 1 or len(filt) != 1:
+        raise AnalysisError("cannot identify the name sets of formal_attributes (%s) / extra_attributes (%s)" % ([norm(w) for w in walked], [norm(f[0]) for f in filt]))
+    w, (f, negated) = walked[0], filt[0]
+
+    def value_for(cls, expr):
+        while isinstance(expr, ast.Call) and call_name(expr) in ("set", "frozenset", "tuple", "list") and len(expr.args) == 1:
+            expr = expr.args[0]
+        if isinstance(expr, ast.Attribute) and isinstance(expr.value, ast.Name) and expr.value.id == "self":
+            v = ctx.f.class_attr(cls, expr.attr)
+        else:
+            v = ctx.f.eval(expr, M, {})
+        if is_unknown(v) or not isinstance(v, (tuple, list, set, frozenset)):
+            raise AnalysisError("cannot fold %s for %s" % (norm(expr), cls))
+        return set(v)
+
+    kinds = record_kinds(ctx)
+    bad = []
+    for t, cls in sorted(kinds.items(), key=lambda kv: kv[1]):
+        a, b = value_for(cls, w), value_for(cls, f)
+        same = (a == b) and negated
+        res.ob("%s: formal view walks %d names, extra view filters %s %d names: exact partition: %s" % (cls.rsplit(".", 1)[1], len(a), "out" if negated else "IN", len(b), same))
+        if not same:
+            bad.append((cls, sorted(x.local if isinstance(x, QN) else str(x) for x in (a ^ b))))
+    if bad:
+        cls, diff = bad[0]
+        res.fail(rule.id, "views-do-not-partition", ctx.loc(eq_, efi.node),
+                 "formal_attributes walks `%s` but extra_attributes filters on `%s`: for %d record classes some attribute is in neither (or both) views, e.g. %s: %s" % (norm(w), norm(f), len(bad), cls.rsplit(".", 1)[1], diff[:4]),
+                 "wasInformedBy carrying prov:time (not one of its formal attributes): ProvDocument(records=d.records), d.update(..), flattened(), unified() drop it, so d != rebuilt(d)")
+    return res
+
+
+for _p, _r, _d in (("C04", "C04.R9", "rebuilding a document from its records preserves content, so d == rebuilt(d)"),
+                   ("C09", "C09.R9", "records re-created by flattened/update/add_bundle keep every attribute"),
+                   ("C08", "C08.R10", "records re-created by unified() keep every attribute"),
+                   ("C12", "C12.R7", "the copy made by add_record carries every attribute of its source")):
+    RULES.setdefault(_p, []).append(Rule(_r, "formal_attributes and extra_attributes partition a record's attributes exactly (same name set, for every record class)", 18, attribute_partition, "F-TABLE", _d))
